@@ -23,10 +23,10 @@
      still contains an upper-case escape, "#" in the last component = fragment) and sizes the file THERE: not found =>
      FileNotFoundError; every failure rolls back by removing location.uri (not necessarily the file written); the
      record path is that re-read text;
-   * ingest(copy|move): the target is written with overwrite=True, the record path is the (once-decoded)
-     template text, NO containment check follows; a refused record insert rolls the transfer back (copy:
-     target removed; move: moved back);
-   * ingest_zip(copy): the zip is written with overwrite=True first, a refused record insert removes it.
+   * ingest(copy|move): a dataset already held is refused first (2da36a1); the target is written with overwrite=True,
+     the record path is the (once-decoded) template text; before 2da36a1 (ichk = false) a refused record insert rolled
+     the transfer back (copy: target removed; move: moved back);
+   * ingest_zip(copy): likewise (before 2da36a1 the zip was written first and a refused record insert removed it).
    No proofs here. *)
 From Coq Require Import String Ascii List Bool NArith.
 From V Require Import Model.Template.
@@ -140,7 +140,9 @@ Definition abs_after_decode (p : string) : bool := has_upper_escape p && is_abs 
 (* df0ecd0: FileDatastore builds the location of a new artifact with trusted_path=False, so Location checks that the
    RESOLVED (decoded, normalised) location of the template text is under the root before anything is written.
    `chk` = that check is in force (false = the code before df0ecd0, kept for the _refuted_without_fix witnesses).
-   `rchk` (step_v) = the same check on RECORD paths at use time (5539e78). *)
+   `rchk` (step_v) = the same check on RECORD paths at use time (5539e78).
+   `ichk` (step_v) = an ingest of a dataset the datastore already holds is refused BEFORE any file is transferred (2da36a1);
+   false = the code before it: the target was overwritten first and the rollback of the refused insert removed it. *)
 Definition checked (chk : bool) (p : string) : bool := negb chk || inside (rel_loc (stage_a p)).
 Definition refuse_location (chk : bool) (p : string) : bool := abs_after_decode p || negb (checked chk p).
 
@@ -304,7 +306,7 @@ Definition do_trash (s : state) (ids : list N) : state :=
   mkState (recs s) (filter (fun id => negb (memN id ids)) (live s)) (known ++ trash s) (fs s).
 
 (* ---- one operation ---------------------------------------------------------------------------------- *)
-Definition step_v (chk rchk : bool) (s : state) (x : op) : state * outcome :=
+Definition step_v (chk rchk ichk : bool) (s : state) (x : op) : state * outcome :=
   match x with
   | Put id fr ext c =>
       match fr with
@@ -325,6 +327,10 @@ Definition step_v (chk rchk : bool) (s : state) (x : op) : state * outcome :=
             else (with_fs s (fdel f1 l), Refused RuntimeErr)
       end
   | Ingest m ids fr ext src =>
+      (* 2da36a1: _finishIngest first refuses datasets the datastore already holds -- before the template is formatted and
+         before any file is transferred (the source has been found to exist by _prepIngest) *)
+      if ichk && held_any s ids && (match fget (fs s) src with Some _ => true | None => false end)
+      then (s, Refused Conflict) else
       match fr with
       | FOutside => (s, Refused ValueErr)
       | FKeyErr => (s, Refused KeyErr)
@@ -357,6 +363,7 @@ Definition step_v (chk rchk : bool) (s : state) (x : op) : state * outcome :=
            end
   | IngestZip members z c =>
       let l := rel_loc z in
+      if ichk && held_any s (map fst members) then (s, Refused Conflict) else
       if held_any s (map fst members)
       then (with_fs s (fdel (fs s) l), Refused Conflict)
       else (add_recs s (map (fun m => (fst m, z ++ "#zip-path=" ++ snd m)) members) (fset (fs s) l c), Done)
@@ -368,7 +375,7 @@ Definition step_v (chk rchk : bool) (s : state) (x : op) : state * outcome :=
   end.
 
 (* the code as it is *)
-Definition step : state -> op -> state * outcome := step_v true true.
+Definition step : state -> op -> state * outcome := step_v true true true.
 
 Definition run (s : state) (h : list op) : state := fold_left (fun st x => fst (step st x)) h s.
 
